@@ -199,7 +199,7 @@ impl MarkdownEventsReader {
             })),
             Tag::CodeBlock(code_block_kind) => {
                 self.push_block(DocumentBlock::CodeBlock(CodeBlock {
-                    line_range: self.to_line_range(range),
+                    line_range: self.to_code_block_line_range(range),
                     lang: match code_block_kind {
                         CodeBlockKind::Fenced(lang) => {
                             Some(lang.to_string()).filter(|f| !f.is_empty())
@@ -387,7 +387,9 @@ impl MarkdownEventsReader {
             .unwrap_or(to - from)
     }
 
-    fn to_line_range(&self, range: Range<usize>) -> LineRange {
+    // a fenced code block is addressed by its opening fence and its code: the range stops
+    // before the line that holds the end of the block
+    fn to_code_block_line_range(&self, range: Range<usize>) -> LineRange {
         let mut start = 0;
         let mut end = 0;
 
@@ -405,6 +407,26 @@ impl MarkdownEventsReader {
         }
 
         start..end
+    }
+
+    fn to_line_range(&self, range: Range<usize>) -> LineRange {
+        let mut start = 0;
+        let mut end = 0;
+
+        // the block covers every line from the one that holds its first byte to the one that
+        // holds its last byte (the range may end in the middle of a line: no final newline,
+        // the closing fence of a code block, a link that ends an item)
+        let last_byte = range.end.saturating_sub(1).max(range.start);
+        for (line, &line_start) in self.line_starts.iter().enumerate() {
+            if line_start <= range.start {
+                start = line;
+            }
+            if line_start <= last_byte {
+                end = line;
+            }
+        }
+
+        start..end + 1
     }
 }
 
